@@ -29,7 +29,12 @@ struct Trace {
     items: Vec<(usize, usize, String)>,
     ended: Vec<usize>,
     fired: bool,
+    helper_records: usize,
+    helper_chunks: usize,
 }
+
+const HELPER_FROM: usize = 1_000_000;
+const HELPER_TO: usize = 1_000_001;
 
 #[derive(Clone, Debug, PartialEq)]
 struct Fault {
@@ -66,6 +71,19 @@ fn install(trace: Arc<Mutex<Trace>>, fault: Option<Fault>) {
                     }
                 }
                 t.items.push((rel, k, what));
+                Action::Continue
+            }
+            // helper threads of COPY: node HELPER_FROM / HELPER_TO, k = record / chunk index
+            "exec.copy_from.record" | "exec.copy_to.chunk" => {
+                let node = if name == "exec.copy_from.record" { HELPER_FROM } else { HELPER_TO };
+                let k: usize = detail.parse().unwrap_or(usize::MAX);
+                if let Some(f) = &fault {
+                    if f.node == node && f.k == k && !t.fired {
+                        t.fired = true;
+                        return if f.kind == "error" { Action::Error } else { Action::Panic };
+                    }
+                }
+                if node == HELPER_FROM { t.helper_records += 1 } else { t.helper_chunks += 1 }
                 Action::Continue
             }
             "exec.end" => {
@@ -278,6 +296,32 @@ fn build_db(ctx: &mut Ctx, case: &Case) -> Result<(Database, Option<String>), St
         (Database::new_in_memory(), None)
     };
     for s in &case.setup {
+        // `CSV <name> <rows> <bad row | -> <unparsable|short|overflow|->`: writes $DIR/<name>.csv with
+        // rows `i,<i % 7>` (or `i,<i % 7> hours` for kind overflow / interval), one bad record
+        if let Some(spec) = s.strip_prefix("CSV ") {
+            let f: Vec<&str> = spec.split(' ').collect();
+            let (name, n, bad, kind) = (f[0], f[1].parse::<usize>().unwrap(), f[2].parse::<usize>().ok(), f[3]);
+            let interval = f.get(4).map(|x| *x == "interval").unwrap_or(false);
+            let mut text = String::new();
+            for i in 0..n {
+                if Some(i) == bad {
+                    text += match kind {
+                        "unparsable" => "abc,1\n",
+                        "short" => "5\n",
+                        "overflow" => "7,3000000 hours\n",
+                        _ => "0,0\n",
+                    };
+                } else if interval {
+                    text += &format!("{i},{} hours\n", i % 7);
+                } else {
+                    text += &format!("{i},{}\n", i % 7);
+                }
+            }
+            std::fs::create_dir_all(&ctx.work).unwrap();
+            std::fs::write(format!("{}/{name}.csv", ctx.work), text).unwrap();
+            continue;
+        }
+        let s = &s.replace("$DIR", &ctx.work);
         match run_sql(&ctx.rt, &db, s) {
             Outcome::Ok(_) => {}
             o => return Err(format!("setup `{s}` failed: {o:?}")),
@@ -305,7 +349,7 @@ fn plan_postorder(s: &Sexp, out: &mut Vec<(String, usize, Vec<String>)>) {
     let Some(h) = l.first().and_then(|x| x.as_atom()) else { return };
     let n = l.len();
     let (kids, params): (Vec<&Sexp>, Vec<String>) = match h {
-        "scan" | "values" | "empty" => (vec![], vec![]),
+        "scan" | "values" | "empty" | "copy_from" => (vec![], vec![]),
         "proj" | "filter" | "order" | "agg" | "hashagg" | "sortagg" | "window" | "insert"
         | "delete" | "analyze" | "copy_to" => (vec![&l[n - 1]], vec![]),
         "limit" => (vec![&l[3]], vec![l[1].to_string(), l[2].to_string()]),
@@ -321,9 +365,9 @@ fn plan_postorder(s: &Sexp, out: &mut Vec<(String, usize, Vec<String>)>) {
 
 fn op_kind(name: &str) -> &'static str {
     match name {
-        "scan" | "values" => "leaf",
+        "scan" | "values" | "copy_from" => "leaf",
         "proj" | "filter" | "window" => "stream",
-        "order" | "agg" | "hashagg" | "sortagg" | "topn" => "block",
+        "order" | "agg" | "hashagg" | "sortagg" | "topn" | "copy_to" => "block",
         "limit" => "limit",
         "join" | "hashjoin" | "mergejoin" => "join",
         "insert" | "delete" => "dml",
@@ -413,7 +457,7 @@ fn run_with(ctx: &mut Ctx, case: &Case, fault: Option<Fault>) -> Result<(RunOut,
     let tr = Arc::new(Mutex::new(Trace::default()));
     install(tr.clone(), fault);
     let p0 = PANICS.load(std::sync::atomic::Ordering::SeqCst);
-    let outcome = run_sql(&ctx.rt, &db, &case.stmt);
+    let outcome = run_sql(&ctx.rt, &db, &case.stmt.replace("$DIR", &ctx.work));
     verif::clear();
     let panics = PANICS.load(std::sync::atomic::Ordering::SeqCst) - p0;
     let post = tables(ctx, &db);
@@ -479,7 +523,7 @@ fn run_case(ctx: &mut Ctx, cid: usize, case: &Case, thorough: bool, out: &mut Ve
     {
         let (db, dir) = build_db(ctx, case).unwrap();
         let plan = catch(|| {
-            let bound = db.verif_bind(&case.stmt).ok()?;
+            let bound = db.verif_bind(&case.stmt.replace("$DIR", &ctx.work)).ok()?;
             let opt = ctx.rt.block_on(db.verif_optimizer()).ok()?;
             Some(opt.optimize(bound.last()?.clone()))
         });
@@ -571,6 +615,45 @@ fn run_case(ctx: &mut Ctx, cid: usize, case: &Case, thorough: bool, out: &mut Ve
             "tables_eq_pre": fr.tables == pre2, "tables_eq_post": fr.tables == nf.tables,
             "delta": (total_rows(&fr.tables) - total_rows(&pre2)).abs(),
             "pre_same": pre2 == pre}));
+    }
+    // faults inside the helper threads of COPY (blocking CSV reader / writer): the statement must
+    // return Err and commit nothing
+    let helpers: Vec<(usize, &str, usize)> = vec![
+        (HELPER_FROM, "copy_from", nf.trace.helper_records),
+        (HELPER_TO, "copy_to", nf.trace.helper_chunks),
+    ];
+    for (node, hname, n) in helpers {
+        if n == 0 {
+            continue;
+        }
+        let mut ks = vec![0, 1, n / 2, 1024 + 3, n - 1];
+        ks.retain(|k| *k < n);
+        ks.sort();
+        ks.dedup();
+        for k in ks {
+            for kind in ["error", "panic"] {
+                let f = Fault { node, k, kind: kind.into() };
+                let Ok((fr, pre2)) = run_with(ctx, case, Some(f)) else { continue };
+                // the model sees it as the leaf (reader) / the root (writer) failing by itself
+                // after the chunks completed before record k
+                let model_req = if node == HELPER_FROM {
+                    let leaf = nodes.iter().position(|x| x.name == "copy_from");
+                    leaf.map(|li| {
+                        let mut ns = nodes.clone();
+                        let done = k / 1024;
+                        ns[li].outs.truncate(done);
+                        ns[li].err = true;
+                        model_request(&ns, &None)
+                    })
+                } else {
+                    None
+                };
+                rec(json!({"type": "helper-fault", "helper": hname, "k": k, "kind": kind, "fired": fr.trace.fired,
+                    "class": fr.outcome.class(), "panics": fr.panics, "model_req": model_req,
+                    "tables_eq_pre": fr.tables == pre2, "dml": is_dml,
+                    "err_text": match &fr.outcome { Outcome::Err(e) | Outcome::Panic(e) => e.chars().take(120).collect::<String>(), _ => String::new() }}));
+            }
+        }
     }
 }
 
